@@ -989,6 +989,19 @@ def check_c14(tracks, co: CaseOut, fmts=("csv", "csv-display", "geff", "internal
                         co.fail(s, w)
                     if model and enc2 is not None:
                         co.model("C14 internal re-load", " ".join(["EX", "intrt", str(I2.one)] + enc2), str_intrt(T4, I2))
+                    if t4.segmentation is not None and np.asarray(t4.segmentation).size:
+                        # the loaded copy is edited (not saved); what is on disk is still what was written
+                        try:
+                            t4.segmentation[...] = 0
+                        except Exception:  # noqa: BLE001
+                            pass
+                        st, t5 = guarded(load_tracks, d / "s", solution=True)
+                        if st != "ok":
+                            co.fail("C14|internal|second-load-raises", f"load_tracks (second time): {_exc(t5) if st == 'err' else 'hang'}")
+                        else:
+                            for s_, w in diff_tables("internal", T, table(t5), None, None,
+                                                     {"reg_before": regb, "reg_after": registry_json(t5)}):
+                                co.fail(s_.replace("C14|internal|", "C14|internal|second-load-after-editing-the-first|"), w)
     finally:
         shutil.rmtree(d, ignore_errors=True)
 
